@@ -138,6 +138,13 @@ class Hooks(W.Hooks):
             if got != want:
                 self.failed = ctx.fail(f"{si.op}/not-applied-uniformly", f"step {step}: got {got} want {want}")
                 return
+        if si.op == "select2d":
+            src = [list(c) for c in si.operands[0].obj.cols()]
+            want = [[freeze(x) for x in src[j][si.info["rows"]]] for j in si.info["picked"]]
+            got = [[freeze(x) for x in c] for c in res.cols()] if isinstance(res, S.Table) else [[freeze(x) for x in res]]
+            if got != want:
+                self.failed = ctx.fail(f"select2d/{si.info['form']}/cells", f"step {step}: t[{si.info['rows']}, {si.info['cols']!r}] gave {got}, the columns give {want}")
+                return
         if si.op == "transpose" and isinstance(res, S.Table):
             src = si.operands[0].obj
             if len(src) >= 1 and len(src.cols()) >= 1:
